@@ -327,6 +327,12 @@ def builtin (f : String) (args : List Val) : Option (R Val) :=
       | none => some (.ok (.tup [.nil, .bool false]))
     | [.nil, _] => some (.ok (.tup [.nil, .bool false]))
     | _ => some (.stuck "map lookup")
+  else if f = "panic" then some .panic
+  else if f = "string" then
+    -- string(b) of a byte slice / a string: the value itself (keys are compared as values)
+    match args with
+    | [v] => some (.ok v)
+    | _ => some (.stuck "string()")
   else if f = "make" then
     match args with
     | [] => some (.ok (.list []))
